@@ -15,7 +15,9 @@ def gen_label(r):
 
 def gen_edge(w, r, ir):
     m = w.m
-    nodes = m.by_kind("cb", "px")
+    from .gen_own import local_pool
+
+    nodes = local_pool(w, r, ir, ("cb", "px"), scope="ir")
     if not nodes:
         return None
     cur = sorted(m.nodes[ir].a["cfg"], key=repr)
